@@ -228,6 +228,13 @@ func oneSource(e *entry, tree map[string]any) sources {
 func entryReq(sd *structD, e *entry, tree map[string]any, classes string) *evalReq {
 	q := &evalReq{sd: sd, ss: oneSource(e, tree), entry: e.Name, ctxName: e.Ctx.Name, classes: classes,
 		doc: func() string { return e.Doc(tree) }}
+	if e.Respell {
+		// the reference reads the canonical tree; the document spells the keys as declared
+		written := respell(sd.Fields, e.Ctx, tree)
+		q.doc = func() string { return e.Doc(written) }
+		q.call = func(t any) error { return e.Call(written, t) }
+		return q
+	}
 	if !e.ByRef {
 		q.call = func(t any) error { return e.Call(tree, t) }
 		return q
@@ -240,6 +247,62 @@ func entryReq(sd *structD, e *entry, tree map[string]any, classes string) *evalR
 	q.passesRef = true
 	q.scribbleInput = func() { scribbleTree(passed) }
 	return q
+}
+
+// respell returns the tree with every key that belongs to a field spelled as the field's tag
+// declares it (the tree itself holds the canonical spellings); keys of maps are data and stay.
+func respell(fields []*fieldD, ctx *ctxD, tree map[string]any) map[string]any {
+	out := make(map[string]any, len(tree))
+	for k, v := range tree {
+		out[k] = v
+	}
+	var level func(fs []*fieldD)
+	level = func(fs []*fieldD) {
+		for _, f := range fs {
+			if f.Ignore || (!f.NoTag && f.Src != ctx.TagKey) {
+				continue
+			}
+			if f.Embedded {
+				level(f.Sub.Fields)
+				continue
+			}
+			ck := ctx.canon(f.key())
+			v, ok := tree[ck]
+			if !ok {
+				continue
+			}
+			delete(out, ck)
+			out[f.key()] = respellValue(f, ctx, v)
+		}
+	}
+	level(fields)
+	return out
+}
+
+func respellValue(f *fieldD, ctx *ctxD, v any) any {
+	switch f.Kind {
+	case reflect.Struct:
+		if m, ok := v.(map[string]any); ok {
+			return respell(f.Sub.Fields, ctx, m)
+		}
+	case reflect.Slice:
+		if arr, ok := v.([]any); ok && arr != nil {
+			out := make([]any, len(arr))
+			for i, el := range arr {
+				out[i] = respellValue(f.Elem, ctx, el)
+			}
+			return out
+		}
+	case reflect.Map:
+		if m, ok := v.(map[string]any); ok {
+			out := make(map[string]any, len(m))
+			for k, el := range m {
+				out[k] = respellValue(f.Elem, ctx, el)
+			}
+			return out
+		}
+	}
+	return v
 }
 
 func (h *harness) evalEntry(c *kit.Case, sd *structD, e *entry, tree map[string]any, classes string) {
@@ -427,6 +490,9 @@ func (h *harness) runExhaustive(t *testing.T) {
 						if en == "lower" && !exhLowerClasses[cls] {
 							continue
 						}
+						if cls == vcEmptyList && cb.rng > 1 && cb.rng != 9 {
+							continue // a key without values: once per bound pair is enough, the range form plays no part
+						}
 						var leaf any
 						ok := true
 						if cls != vcAbsent {
@@ -458,13 +524,13 @@ func (h *harness) runExhaustive(t *testing.T) {
 
 // ---------------------------------------------------------------- family: random composite types
 
-var randomEntries = []string{"json", "json", "json", "jsonreader", "yaml", "toml", "key", "keynative", "jsonmap", "custom", "strvals", "formlike", "pathlike", "headerlike", "lower"}
+var randomEntries = []string{"json", "json", "json", "jsonreader", "yaml", "toml", "key", "keynative", "jsonmap", "custom", "strvals", "formlike", "pathlike", "headerlike", "lower", "conf"}
 
 func (h *harness) runRandom(t *testing.T, n int) {
 	h.run(t, "random", n, func(c *kit.Case) {
 		r := c.R
 		e := entries[kit.Choose(r, randomEntries)]
-		g := &typeGen{r: r, e: e, tagKey: e.Ctx.TagKey, maxDeep: 2}
+		g := &typeGen{r: r, e: e, tagKey: e.Ctx.TagKey, maxDeep: 2, noIgnore: e.Name == "conf"}
 		if kit.Thorough() && r.Chance(0.3) {
 			g.maxDeep = 3
 		}
@@ -551,15 +617,22 @@ func (h *harness) runHTTP(t *testing.T, n int) {
 // sanitizeHTTP normalises the parts of an input that an HTTP request cannot express the way
 // the tree says (non-string leaves in string-only sources).
 func sanitizeHTTP(in *httpInput) {
-	for _, m := range []map[string]any{in.Form, in.Path, in.Header} {
+	for i, m := range []map[string]any{in.Form, in.Path, in.Header} {
+		// a header key may be present without any value (http.Header is a plain map of lists);
+		// a query string cannot express that, and httpx drops form keys without non-empty values
+		keepEmpty := i == 2
 		for k, v := range m {
 			switch x := v.(type) {
 			case string:
 				if x == "" {
 					delete(m, k)
 				}
+			case []string:
+				if len(x) > 0 || !keepEmpty {
+					delete(m, k)
+				}
 			case []any:
-				ok := len(x) > 0
+				ok := len(x) > 0 || keepEmpty
 				for _, el := range x {
 					if s, isStr := el.(string); !isStr || s == "" {
 						ok = false
@@ -623,6 +696,22 @@ func (h *harness) runShapes(t *testing.T) {
 		{"map-of-struct-ptr", func(k reflect.Kind) *fieldD {
 			return &fieldD{Kind: reflect.Map, Elem: &fieldD{Kind: reflect.Struct, Ptr: 1, Sub: sub()}}
 		}},
+		// containers nested directly in containers, the element struct has a mixed-case key
+		{"slice-of-slice-of-struct", func(k reflect.Kind) *fieldD {
+			return &fieldD{Kind: reflect.Slice, Elem: &fieldD{Kind: reflect.Slice, Elem: &fieldD{Kind: reflect.Struct, Sub: sub()}}}
+		}},
+		{"slice-of-slice-of-struct-ptr", func(k reflect.Kind) *fieldD {
+			return &fieldD{Kind: reflect.Slice, Elem: &fieldD{Kind: reflect.Slice, Elem: &fieldD{Kind: reflect.Struct, Ptr: 1, Sub: sub()}}}
+		}},
+		{"slice-of-map-of-struct", func(k reflect.Kind) *fieldD {
+			return &fieldD{Kind: reflect.Slice, Elem: &fieldD{Kind: reflect.Map, Elem: &fieldD{Kind: reflect.Struct, Sub: sub()}}}
+		}},
+		{"map-of-slice-of-struct", func(k reflect.Kind) *fieldD {
+			return &fieldD{Kind: reflect.Map, Elem: &fieldD{Kind: reflect.Slice, Elem: &fieldD{Kind: reflect.Struct, Sub: sub()}}}
+		}},
+		{"map-of-slice-of-slice-of-struct", func(k reflect.Kind) *fieldD {
+			return &fieldD{Kind: reflect.Map, Elem: &fieldD{Kind: reflect.Slice, Elem: &fieldD{Kind: reflect.Slice, Elem: &fieldD{Kind: reflect.Struct, Sub: sub()}}}}
+		}},
 		{"embedded-ptr", func(k reflect.Kind) *fieldD {
 			return &fieldD{Kind: reflect.Struct, Ptr: 1, Embedded: true, NoTag: true, Sub: sub()}
 		}},
@@ -633,11 +722,11 @@ func (h *harness) runShapes(t *testing.T) {
 			return &fieldD{Kind: reflect.Struct, Ptr: 1, Embedded: true, Opt: optPlain, Sub: sub()}
 		}},
 	}
-	ents := []string{"json", "yaml", "toml", "jsonmap", "lower"}
+	ents := []string{"json", "yaml", "toml", "jsonmap", "lower", "conf"}
 	h.run(t, "shapes", len(shapes), func(c *kit.Case) {
 		sh := shapes[c.Index]
 		kinds := allPrims
-		if probe := sh.mk(reflect.Int); probe.Sub != nil || (probe.Elem != nil && probe.Elem.Sub != nil) {
+		if probe := sh.mk(reflect.Int); probe.Sub != nil || hasSub(probe.Elem) {
 			kinds = []reflect.Kind{reflect.Int} // the shape does not depend on a primitive kind
 		}
 		for _, k := range kinds {
@@ -677,6 +766,15 @@ func (h *harness) runShapes(t *testing.T) {
 		}
 		c.Sample("shapes", 1, map[string]any{"shape": sh.name})
 	})
+}
+
+func hasSub(f *fieldD) bool {
+	for ; f != nil; f = f.Elem {
+		if f.Sub != nil {
+			return true
+		}
+	}
+	return false
 }
 
 // ---------------------------------------------------------------- family: hand-written (compiled) struct types
@@ -913,7 +1011,7 @@ func TestVerifC08(t *testing.T) {
 	h.runExhaustive(t)
 	h.runShapes(t)
 	h.runIsolation(t)
-	h.runXum(t, kit.N(400, 6000))
+	h.runXum(t, kit.N(320, 6000))
 	h.runHandWritten(t, kit.N(900, 10000))
 	h.runRandom(t, kit.N(10000, 250000))
 	h.runHTTP(t, kit.N(4000, 60000))
